@@ -275,27 +275,46 @@ func c23(r *core.Run) {
 	r.Saw(core.FuncName(fn))
 	r.Eval(core.EdgeCount(fn))
 	// the iteration callback: closure that stores to captured `closest`
+	// identified structurally (not by variable names): the callback is the closure with a
+	// (peer, po) signature that stores its first parameter into a captured address cell —
+	// that cell is the candidate; the captured variable of the function's variadic skip
+	// parameter is the skip list
 	var cl *ssa.Function
-	for _, c := range core.Closures(fn) {
-		for _, fv := range c.FreeVars {
-			if fv.Name() == "closest" {
-				cl = c
-			}
+	var closestFV, skipFV *ssa.FreeVar
+	var mkCl *ssa.MakeClosure
+	core.EachInstr(fn, func(_ *ssa.BasicBlock, _ int, in ssa.Instruction) {
+		mc, ok := in.(*ssa.MakeClosure)
+		if !ok {
+			return
 		}
-	}
+		c := mc.Fn.(*ssa.Function)
+		if len(c.Params) != 2 {
+			return
+		}
+		for i, fv := range c.FreeVars {
+			for _, u := range core.Uses(fv) {
+				if st, ok := u.(*ssa.Store); ok && st.Addr == ssa.Value(fv) && st.Val == ssa.Value(c.Params[0]) {
+					cl, closestFV, mkCl = c, fv, mc
+				}
+			}
+			_ = i
+		}
+	})
 	if cl == nil {
-		r.Fatal("unresolved anchor: iteration callback of ClosestPeer capturing `closest`")
+		r.Fatal("unresolved anchor: iteration callback of ClosestPeer (closure storing its peer parameter into a captured candidate)")
 		return
 	}
 	r.Saw(core.FuncName(cl))
 	r.Eval(core.EdgeCount(cl))
-	var closestFV, skipFV *ssa.FreeVar
-	for _, fv := range cl.FreeVars {
-		switch fv.Name() {
-		case "closest":
-			closestFV = fv
-		case "skipPeers":
-			skipFV = fv
+	skipParam := fn.Params[len(fn.Params)-1]
+	for i, b := range mkCl.Bindings {
+		// the binding is the cell the variadic parameter was spilled into
+		if al, ok := b.(*ssa.Alloc); ok {
+			for _, u := range core.Uses(al) {
+				if st, ok := u.(*ssa.Store); ok && st.Addr == ssa.Value(al) && st.Val == ssa.Value(skipParam) {
+					skipFV = cl.FreeVars[i]
+				}
+			}
 		}
 	}
 	peer := cl.Params[0]
@@ -378,11 +397,11 @@ func c23(r *core.Run) {
 
 	// G2 result classification in ClosestPeer
 	var closestCell ssa.Value
-	core.EachInstr(fn, func(_ *ssa.BasicBlock, _ int, in ssa.Instruction) {
-		if a, ok := in.(*ssa.Alloc); ok && a.Comment == "closest" {
-			closestCell = a
+	for i, fv := range cl.FreeVars {
+		if fv == closestFV {
+			closestCell = mkCl.Bindings[i]
 		}
-	})
+	}
 	cellLoad := func(v ssa.Value) bool {
 		p, ok := core.LoadedFrom(v)
 		return ok && p == closestCell
